@@ -214,6 +214,7 @@ fn run12<A: Alphabet>(case: &Case, info: &mut CaseInfo) -> Option<Failure> {
     let m = p.m as f64;
     let cap = p.mass.max(1.0) * (1.0 + p.rel);
     let mut tfmp = TfmPvalue::new(&p.pssm);
+    let mut adaptors_done = false;
     let mut max_steps = 0;
     let mut inside = false;
     for (s, kind) in queries {
@@ -222,12 +223,10 @@ fn run12<A: Alphabet>(case: &Case, info: &mut CaseInfo) -> Option<Failure> {
         }
         let mut steps = 0;
         let mut last_converged = false;
-        for it in tfmp.approximate_pvalue(s).take(MAX_STEPS) {
-            steps += 1;
+        let check_item = |it: &lightmotif_tfmpvalue::Iteration, how: &str| -> Option<Failure> {
             let g = it.granularity;
             let (pmin, pmax) = (*it.range.start(), *it.range.end());
-            info.comparisons += 1;
-            let ctx = || format!("score {} ({}), granularity {:e}, M={}: range [{:e}, {:e}]", s, kind, g, p.m, pmin, pmax);
+            let ctx = || format!("score {} ({}), {}granularity {:e}, M={}: range [{:e}, {:e}]", s, kind, how, g, p.m, pmin, pmax);
             if !(pmin >= 0.0 && pmin <= pmax) {
                 return Some(Failure::new("pvalue:range-order", format!("{}: not an ordered range of probabilities", ctx())));
             }
@@ -242,10 +241,45 @@ fn run12<A: Alphabet>(case: &Case, info: &mut CaseInfo) -> Option<Failure> {
             if pmax > hi + (p.rel * hi + 1e-15) {
                 return Some(Failure::new("pvalue:pmax-above-exact", format!("{}: pmax > P(S >= s-(M+2)g) = {:e}", ctx(), hi)));
             }
+            None
+        };
+        for it in tfmp.approximate_pvalue(s).take(MAX_STEPS) {
+            steps += 1;
+            info.comparisons += 1;
+            if let Some(f) = check_item(&it, "") {
+                return Some(f);
+            }
             last_converged = it.converged;
             if it.converged {
                 // the final p-value is the lower end of the range: same bounds, already checked
                 break;
+            }
+        }
+        // the same steps reached through the iterator's positional adaptors (first query of a case only:
+        // each costs a fresh object and a few refinements)
+        if !adaptors_done {
+            adaptors_done = true;
+            let stepped: Vec<lightmotif_tfmpvalue::Iteration> = TfmPvalue::new(&p.pssm).approximate_pvalue(s).take(3).collect();
+            for n in 1..=2usize {
+                let jumped = TfmPvalue::new(&p.pssm).approximate_pvalue(s).nth(n);
+                let skipped = TfmPvalue::new(&p.pssm).approximate_pvalue(s).skip(n).next();
+                for (how, it) in [("nth: ", &jumped), ("skip: ", &skipped)] {
+                    info.comparisons += 1;
+                    if let Some(it) = it {
+                        if let Some(f) = check_item(it, how) {
+                            return Some(f);
+                        }
+                    }
+                    // stepping n+1 times and jumping there are the same iteration
+                    let same = match (stepped.get(n), it) {
+                        (None, None) => true,
+                        (Some(a), Some(b)) => a.granularity == b.granularity && a.range == b.range && a.converged == b.converged && a.score == b.score,
+                        _ => false,
+                    };
+                    if !same {
+                        return Some(Failure::new("pvalue:adaptor", format!("score {} ({}): {}{} does not give the iteration that {} next() calls give", s, kind, how, n, n + 1)));
+                    }
+                }
             }
         }
         if last_converged && steps < MAX_STEPS {
@@ -295,10 +329,114 @@ impl Sub for PvalueRanges {
     }
 }
 
+// --- long motifs: the upper tail only -------------------------------------------------------
+
+#[derive(Clone, Debug, Serialize, Deserialize)]
+pub struct LongCase {
+    pub abc: Abc,
+    pub mat: MatSpec,
+    /// scores as distances below the maximum attainable score
+    pub below_max: Vec<Fl>,
+}
+
+pub struct LongMotifs;
+
+fn run_long<A: Alphabet>(case: &LongCase, info: &mut CaseInfo) -> Option<Failure> {
+    let k = case.abc.k();
+    let cells = case.mat.cells();
+    let m = cells.len() as f64;
+    let pssm = build_pssm::<A>(&case.mat);
+    let mut bg: Vec<f64> = pssm.background().frequencies().iter().map(|&x| x as f64).collect();
+    bg[k - 1] = 0.0;
+    let total: f64 = bg.iter().sum();
+    let rel = 1e-9 + 2.0 * m * (total - 1.0).abs();
+    let t = crate::tail::UpperTail::new(&cells, &bg);
+    let cap = 3_000_000u64;
+    let mut tfmp = TfmPvalue::new(&pssm);
+    for d in &case.below_max {
+        let s = t.max - d.0 as f64;
+        for it in tfmp.approximate_pvalue(s).take(4) {
+            let g = it.granularity;
+            let (pmin, pmax) = (*it.range.start(), *it.range.end());
+            let ctx = || format!("score max-{} = {}, granularity {:e}, M={}: range [{:e}, {:e}]", d.0, s, g, cells.len(), pmin, pmax);
+            if !(pmin >= 0.0 && pmin <= pmax) {
+                return Some(Failure::new("pvalue:range-order", format!("{}: not an ordered range of probabilities", ctx())));
+            }
+            // the lower bound needs the (small) tail above s+(M+1)g, the upper bound the larger one above s-(M+2)g
+            if let Some(lo) = t.ge(s + (m + 1.0) * g + 1e-9, cap) {
+                info.comparisons += 1;
+                if lo > 0.0 {
+                    info.nontrivial = true;
+                }
+                if pmin < lo - (rel * lo + 1e-300) {
+                    return Some(Failure::new("pvalue:pmin-below-exact", format!("{}: pmin < P(S >= s+(M+1)g) = {:e}", ctx(), lo)));
+                }
+            }
+            if let Some(hi) = t.ge(s - (m + 2.0) * g - 1e-9, cap) {
+                info.comparisons += 1;
+                if pmax > hi + (rel * hi + 1e-300) {
+                    return Some(Failure::new("pvalue:pmax-above-exact", format!("{}: pmax > P(S >= s-(M+2)g) = {:e}", ctx(), hi)));
+                }
+            } else {
+                info.class("upper-bound-tail-too-large-to-enumerate(skipped)");
+            }
+            if it.converged {
+                break;
+            }
+        }
+    }
+    info.class_if(case.abc == Abc::Dna, "dna");
+    info.class_if(case.abc == Abc::Protein, "protein");
+    info.class_if(cells.len() >= 27, "M>=27");
+    None
+}
+
+impl Sub for LongMotifs {
+    type Case = LongCase;
+    fn name(&self) -> &'static str {
+        "long-motifs-upper-tail"
+    }
+    fn rule(&self) -> &'static str {
+        "motifs too wide for full enumeration (DNA width 14..34, protein 6..15; arbitrary finite, grid-valued and library-made cells) queried 0.3 .. 6 score units below their maximum; approximate_pvalue driven for at most 4 steps; the exact tails P(S>=s+(M+1)g) and P(S>=s-(M+2)g) come from a depth-first enumeration of the words pruned by the best remaining score (given up after 3e6 prefixes: that bound is then skipped and counted); non-trivial = a step whose lower-bound tail is positive"
+    }
+    fn cases(&self, tier: Tier) -> u64 {
+        tier.pick(1_500, 40_000)
+    }
+    fn strategy(&self, _tier: Tier) -> BoxedStrategy<LongCase> {
+        prop_oneof![3 => Just(Abc::Dna), 1 => Just(Abc::Protein)]
+            .prop_flat_map(|abc| {
+                let k = abc.k();
+                let width = if abc == Abc::Dna { 14usize..=34 } else { 6usize..=15 };
+                let mat = width.prop_flat_map(move |m| {
+                    let fin = (proptest::collection::vec(proptest::collection::vec(-6.0f32..=6.0, k), m), bg_strategy(k, false, false)).prop_map(move |(rows, bg)| {
+                        let mut rows: Vec<Vec<Fl>> = rows.into_iter().map(|r| r.into_iter().map(Fl).collect()).collect();
+                        for r in rows.iter_mut() {
+                            r[k - 1] = Fl(f32::NEG_INFINITY);
+                        }
+                        MatSpec { rows, bg, regime: "finite".into() }
+                    });
+                    let lib = mat_strategy(abc, Just(m).boxed(), Regimes { library: true, finite: false, neginf: false, small_int: false, near_tie: false });
+                    prop_oneof![2 => fin, 1 => lib]
+                });
+                (Just(abc), mat, proptest::collection::vec((0.3f32..6.0).prop_map(Fl), 1..=3))
+            })
+            .prop_map(|(abc, mat, below_max)| LongCase { abc, mat, below_max })
+            .boxed()
+    }
+    fn check(&self, case: &LongCase, _cx: &Cx) -> Verdict {
+        let mut info = CaseInfo::new();
+        let f = with_abc!(case.abc, A => run_long::<A>(case, &mut info));
+        match f {
+            Some(f) => Verdict::Fail(f),
+            None => Verdict::Pass(info),
+        }
+    }
+}
+
 pub fn property12() -> Property {
     Property {
         id: "C12",
-        subs: vec![Box::new(PvalueRanges)],
+        subs: vec![Box::new(PvalueRanges), Box::new(LongMotifs)],
         assumptions: vec![
             "finite non-wildcard entries; S ranges over the K-1 real symbols with the matrix's background (f32 values widened to f64, not renormalised)",
             "the refinement is driven for at most 8 steps (granularity 0.1 .. 1e-8): for exactly attainable scores it need not converge, so the unbounded pvalue() is only called after the bounded run converged",
@@ -375,6 +513,7 @@ fn run13<A: Alphabet>(case: &Case, cx: &Cx, info: &mut CaseInfo) -> Option<Failu
     }
     let m = p.m as f64;
     let mut tfmp = TfmPvalue::new(&p.pssm);
+    let mut adaptors_done = false;
     let mut interesting = false;
     let mut tolerated = 0u64;
     for (pv, kind) in ps {
@@ -387,41 +526,70 @@ fn run13<A: Alphabet>(case: &Case, cx: &Cx, info: &mut CaseInfo) -> Option<Failu
         let tau = p.rel * pv + 1e-15;
         // the library may panic in lookup_score (known finding KF19): run each query
         // under its own catch_unwind so that the search continues behind it
+        let check_item = |it: &lightmotif_tfmpvalue::Iteration, how: &str| -> Option<Failure> {
+            let g = it.granularity;
+            let thr = it.score;
+            let d = (m + 2.0) * g;
+            let ctx = || format!("p = {:e} ({}), {}granularity {:e}, M={}: threshold {}", pv, kind, how, g, p.m, thr);
+            if !thr.is_finite() {
+                return Some(Failure::new("score:not-finite", ctx()));
+            }
+            let above = t.ge(thr + d + 1e-9);
+            if std::env::var("LMCHECK_DEBUG").is_ok() {
+                eprintln!(
+                    "p={:e} g={:e} t={} range=[{:e},{:e}] conv={} P(S>=t)={:e} P(S>=t+d)={:e} u={:?}",
+                    pv, g, thr, it.range.start(), it.range.end(), it.converged, t.ge(thr), above, t.largest_below(thr - d - 1e-9)
+                );
+            }
+            if above > pv + tau {
+                return Some(Failure::new("score:too-low", format!("{}: P(S >= t+d) = {:e} exceeds p (d = (M+2)g = {:e})", ctx(), above, d)));
+            }
+            if let Some(u) = t.largest_below(thr - d - 1e-9) {
+                let pu = t.ge(u - d - 1e-9);
+                if pu < pv - tau {
+                    return Some(Failure::new(
+                        "score:too-high",
+                        format!("{}: the largest attainable score below t-d is {} and P(S >= u-d) = {:e} is still below p", ctx(), u, pu),
+                    ));
+                }
+            }
+            None
+        };
+        let first_query = !adaptors_done;
+        adaptors_done = true;
         let outcome = catch_inner(|| -> Option<Failure> {
-            let mut comparisons = 0u64;
             for it in tfmp.approximate_score(pv).take(MAX_STEPS) {
-                let g = it.granularity;
-                let thr = it.score;
-                let d = (m + 2.0) * g;
-                comparisons += 1;
-                let ctx = || format!("p = {:e} ({}), granularity {:e}, M={}: threshold {}", pv, kind, g, p.m, thr);
-                if !thr.is_finite() {
-                    return Some(Failure::new("score:not-finite", ctx()));
-                }
-                let above = t.ge(thr + d + 1e-9);
-                if std::env::var("LMCHECK_DEBUG").is_ok() {
-                    eprintln!(
-                        "p={:e} g={:e} t={} range=[{:e},{:e}] conv={} P(S>=t)={:e} P(S>=t+d)={:e} u={:?}",
-                        pv, g, thr, it.range.start(), it.range.end(), it.converged, t.ge(thr), above, t.largest_below(thr - d - 1e-9)
-                    );
-                }
-                if above > pv + tau {
-                    return Some(Failure::new("score:too-low", format!("{}: P(S >= t+d) = {:e} exceeds p (d = (M+2)g = {:e})", ctx(), above, d)));
-                }
-                if let Some(u) = t.largest_below(thr - d - 1e-9) {
-                    let pu = t.ge(u - d - 1e-9);
-                    if pu < pv - tau {
-                        return Some(Failure::new(
-                            "score:too-high",
-                            format!("{}: the largest attainable score below t-d is {} and P(S >= u-d) = {:e} is still below p", ctx(), u, pu),
-                        ));
-                    }
+                if let Some(f) = check_item(&it, "") {
+                    return Some(f);
                 }
                 if it.converged {
                     break;
                 }
             }
-            let _ = comparisons;
+            // the same steps reached through the iterator's positional adaptors, on fresh objects (first
+            // query of a case only)
+            if first_query {
+                let stepped: Vec<lightmotif_tfmpvalue::Iteration> = TfmPvalue::new(&p.pssm).approximate_score(pv).take(3).collect();
+                for n in 1..=2usize {
+                    let jumped = TfmPvalue::new(&p.pssm).approximate_score(pv).nth(n);
+                    let skipped = TfmPvalue::new(&p.pssm).approximate_score(pv).skip(n).next();
+                    for (how, it) in [("nth: ", &jumped), ("skip: ", &skipped)] {
+                        if let Some(it) = it {
+                            if let Some(f) = check_item(it, how) {
+                                return Some(f);
+                            }
+                        }
+                        let same = match (stepped.get(n), it) {
+                            (None, None) => true,
+                            (Some(a), Some(b)) => a.granularity == b.granularity && a.range == b.range && a.converged == b.converged && a.score == b.score,
+                            _ => false,
+                        };
+                        if !same {
+                            return Some(Failure::new("score:adaptor", format!("p = {:e} ({}): {}{} does not give the iteration that {} next() calls give", pv, kind, how, n, n + 1)));
+                        }
+                    }
+                }
+            }
             None
         });
         info.comparisons += 1;
